@@ -240,6 +240,24 @@ func c06Programs(tier string) []*Spec {
 		sp.Main = append(sp.Main, Op{K: "refresh"}, Op{K: "refresh"}, Op{K: "refresh"}, Op{K: "refresh"}, Op{K: "incr", B: 0, N: 1}, Op{K: "incr", B: 1, N: 1}, Op{K: "incr", B: 2, N: 1}, Op{K: "refresh"}, Op{K: "refresh"})
 		out = append(out, sp)
 	}
+	// four and five bars, two immediate changes between two frames, the second one addressed to a bar the first one moved
+	for n := 4; n <= 5; n++ {
+		for vi, pair := range [][4]int64{{0, 9, 1, 8}, {3, -1, 0, 7}, {1, 9, 3, -2}, {0, 9, 0, -1}} {
+			sp := &Spec{Name: fmt.Sprintf("c06-double-change-n%d-%d", n, vi), Refresh: "manual", Q: -1}
+			for i := 0; i < n; i++ {
+				sp.Bars = append(sp.Bars, BarSpec{Total: 1})
+				sp.Main = append(sp.Main, Op{K: "add", B: i})
+			}
+			sp.Main = append(sp.Main, Op{K: "refresh"}, Op{K: "refresh"},
+				Op{K: "setprio", B: int(pair[0]), N: pair[1]}, Op{K: "setprio", B: int(pair[2]), N: pair[3]}, Op{K: "refresh"}, Op{K: "refresh"},
+				Op{K: "setprio", B: n - 1, N: -3}, Op{K: "setprio", B: int(pair[0]), N: 2}, Op{K: "refresh"}, Op{K: "refresh"})
+			for i := 0; i < n; i++ {
+				sp.Main = append(sp.Main, Op{K: "incr", B: i, N: 1})
+			}
+			sp.Main = append(sp.Main, Op{K: "refresh"}, Op{K: "refresh"})
+			out = append(out, sp)
+		}
+	}
 	// a priority change addressed to a bar that is still queued behind its predecessor touches no displayed bar
 	for _, v := range []int64{-5, 7} {
 		sp := &Spec{Name: fmt.Sprintf("c06-queued-setprio%d", v), Refresh: "manual", Q: -1}
